@@ -41,6 +41,12 @@ const C = {
   spread: { src: '{...t("xs")}', leaves: ['xs'] },
   comp: { src: '<B a={t("n4")}>{t("n5")}z</B>', leaves: ['n4'], lazyLeaves: ['n5'] },
   cond: { src: '{t("q") && <i id={t("n6")} />}', leaves: ['q', 'n6'] },
+  // expressions that are neither an identifier nor a call, under parentheses / type-only wrappers: evaluated once, where they stand
+  seq: { src: '{(t("q1"), t("q2"))}', leaves: ['q1', 'q2'] },
+  memberParen: { src: '{(lo.x3)}', leaves: ['lo.x3'] },
+  ternary: { src: '{t("c3") ? t("c4") : 0}', leaves: ['c3', 'c4'] },
+  memberNN: { src: '{lo.x4!}', leaves: ['lo.x4'], ts: true },
+  seqAs: { src: '{(t("q3"), lo.x5) as any}', leaves: ['q3', 'lo.x5'], ts: true },
 };
 const C_KEYS = Object.keys(C);
 const HOSTS = { div: { tag: 'div', component: false }, Comp: { tag: 'Comp', component: true }, frag: { tag: '', component: false }, Unbound: { tag: 'Unb', component: true } };
@@ -52,7 +58,7 @@ function mkEnv() {
   };
   const t = (label) => { trace.push(label); return label in values ? values[label] : 'v:' + label; };
   const lo = {};
-  for (const l of ['b', 'x2']) Object.defineProperty(lo, l, { get() { trace.push('lo.' + l); return 'v:lo.' + l; } });
+  for (const l of ['b', 'x2', 'x3', 'x4', 'x5']) Object.defineProperty(lo, l, { get() { trace.push('lo.' + l); return 'v:lo.' + l; } });
   return { bound: { t, lo, Comp: { __c: 'Comp' }, B: { __c: 'B' } }, mv0: 'mv0', trace, names: new Names() };
 }
 const PRELUDE = 'const { t, lo, Comp, B } = __env.bound;\nlet mv = __env.mv0;\n';
@@ -64,7 +70,7 @@ function render(c) {
   const J = h.tag === '' ? `<>${kids}</>` : kids ? `<${h.tag}${attrs ? ' ' + attrs : ''}>${kids}</${h.tag}>` : `<${h.tag}${attrs ? ' ' + attrs : ''} />`;
   return PRELUDE + `__out.mk = () => (${J});\n`;
 }
-function requests(c) { return [{ src: render(c), want: ['eval'], opts: JSON.stringify(c.o) }]; }
+function requests(c) { return [{ src: render(c), ts: c.ch.some((k) => C[k].ts), want: ['eval'], opts: JSON.stringify(c.o) }]; }
 
 // ---- reference model
 function expectedAttrOrder(c) {
